@@ -1116,7 +1116,7 @@ impl Engine for Walk {
     }
 
     fn generate(&self, tier: Tier, rng: &mut Rng, emit: &mut dyn FnMut(String)) {
-        let n = if tier == Tier::Quick { 12000 } else { 200000 };
+        let n = if tier == Tier::Quick { 36000 } else { 200000 };
         for arch in ARCHS {
             for i in 0..n {
                 let os = OSES[(i % OSES.len() as u64) as usize];
